@@ -156,6 +156,19 @@ static TCase gen_case() {
   int nt = c.law == L_MODEL ? (int)R(1, 3) : 1;
   bool spanning = coin(80);
   for (int i = 0; i < nt; i++) c.traps.push_back(gen_trap(c.w, c.h, g, spanning));
+  if (coin(c.law == L_COMPOSITE ? 10 : 3)) {
+    // degenerate shapes: zero or negative height, or an edge "line" through two points of equal y. They draw nothing —
+    // which under composite_trapezoids still means compositing an all-zero mask (seeded C12r)
+    Trap &t = c.traps[0];
+    switch (pickw({2, 1, 2})) {
+    case 0: t.bottom = t.top; break;
+    case 1: std::swap(t.top, t.bottom); break;
+    default:
+      if (coin(50)) t.l2.y = t.l1.y;
+      else t.r2.y = t.r1.y;
+      break;
+    }
+  }
   c.xoff = coin(70) ? 0 : (int)R(-40, 40);
   c.yoff = coin(70) ? 0 : (int)R(-40, 40);
   if (c.xoff || c.yoff) {
@@ -334,6 +347,7 @@ static Verdict run_case(const TCase &c) {
         return v;
       }
     }
+    if (!valid(t)) continue;  // (degenerate: no edge is ever walked)
     // sample rows of the image: [0, h)
     if (!edge_in_range(t.l1, t.l2, 0, (int64_t)c.h * 65536, (int64_t)c.xoff * 65536, (int64_t)c.yoff * 65536) ||
         !edge_in_range(t.r1, t.r2, 0, (int64_t)c.h * 65536, (int64_t)c.xoff * 65536, (int64_t)c.yoff * 65536)) {
@@ -590,7 +604,7 @@ static Verdict run_case(const TCase &c) {
                             FORMATS[db.fmt].name, c.xoff, c.yoff, x, y, a & dm, b & dm);
         bool in_window = x >= c.xoff && x < c.xoff + c.w && y >= c.yoff && y < c.yoff + c.h;
         bool amb = false;
-        model_coverage(T, g, x, y, (int64_t)c.xoff * 65536, (int64_t)c.yoff * 65536, &amb);
+        if (valid(T)) model_coverage(T, g, x, y, (int64_t)c.xoff * 65536, (int64_t)c.yoff * 65536, &amb);
         if (!zero_src_no_effect[op] && (c.xoff || c.yoff) && !in_window) {
           if (known_msg.empty()) known_msg = m, known_id = "S15";
         } else if (amb) {
@@ -609,6 +623,14 @@ static Verdict run_case(const TCase &c) {
     for (int y = 0; y < c.h; y++)
       for (int x = 0; x < c.w; x++) any |= getpx(*mask.im, x, y) != 0;
     v.nontrivial = any;
+    if (!valid(T)) {
+      v.label("degenerate_shape_composited");
+      // non-trivial when the all-zero mask has to change the destination
+      bool changed = false;
+      for (int y = 0; y < c.h; y++)
+        for (int x = 0; x < c.w; x++) changed |= (raw_get(d2->rowp(y), bpp(df), x) & dm) != (raw_get(&d2->before[(size_t)(d2->rowp(y) - d2->buf.p)], bpp(df), x) & dm);
+      v.nontrivial = changed;
+    }
     v.label(op == PIXMAN_OP_ADD && c.p3 == 0 && df == AF[c.fmt] ? "direct_route_candidate" : "general_route");
     break;
   }
